@@ -1,28 +1,36 @@
 #!/usr/bin/env python3
-"""Apply every seeded change in turn to /repo, run the owning property's quick check, revert.  Writes seeded/RESULTS.json."""
+"""Apply every seeded change in turn to a scratch worktree of /repo (PYTHONPATH puts it in front of the editable install; /repo
+itself is not touched), run the owning property's quick check against it, revert.  Writes seeded/RESULTS.json (or $SWEEP_OUT).
+usage: tools/allseeds.py [name-filter ...]     (with filters the earlier results are kept and merged)"""
 import json, os, subprocess, sys
-out = json.load(open("/verif/seeded/RESULTS.json")) if len(sys.argv) > 1 and os.path.exists("/verif/seeded/RESULTS.json") else {}
-names = sorted(d for d in os.listdir("/verif/seeded") if os.path.isdir("/verif/seeded/" + d))
+ROOT = os.path.dirname(os.path.dirname(os.path.abspath(__file__)))
+OUT = os.environ.get("SWEEP_OUT", ROOT + "/seeded/RESULTS.json")
+out = json.load(open(OUT)) if len(sys.argv) > 1 and os.path.exists(OUT) else {}
+names = sorted(d for d in os.listdir(ROOT + "/seeded") if os.path.isdir(ROOT + "/seeded/" + d))
 if len(sys.argv) > 1:
     names = [n for n in names if any(a in n for a in sys.argv[1:])]
-assert subprocess.run(["git", "-C", "/repo", "status", "--porcelain"], capture_output=True, text=True).stdout.strip() == "", "/repo not clean"
-for n in names:
-    meta = json.load(open("/verif/seeded/%s/meta.json" % n))
-    prop = meta["breaks_property"]
-    if meta.get("expected") == "harmless-after-fix":
-        out[n] = {"property": prop, "exit": None, "violations": 0, "note": "neutralised by a fix: commit, not expected to be detected"}
-        continue
-    if subprocess.run(["git", "-C", "/repo", "apply", "/verif/seeded/%s/patch.diff" % n]).returncode:
-        out[n] = {"property": prop, "exit": None, "violations": 0, "error": "patch does not apply"}
-        print("%-50s %s PATCH DOES NOT APPLY" % (n, prop), flush=True)
-        continue
-    try:
-        c = subprocess.run(["./check", prop, "--tier", "quick"], cwd="/verif", capture_output=True, text=True, timeout=1800)
+wt = "/tmp/seeds-wt-%d" % os.getpid()
+subprocess.run(["git", "-C", "/repo", "worktree", "add", "--detach", wt, "HEAD"], check=True, capture_output=True)
+env = dict(os.environ, PYTHONPATH=wt + "/src")
+try:
+    for n in names:
+        meta = json.load(open(ROOT + "/seeded/%s/meta.json" % n))
+        prop = meta["breaks_property"]
+        if meta.get("expected") == "harmless-after-fix":
+            out[n] = {"property": prop, "exit": None, "violations": 0, "note": "neutralised by a fix: commit, not expected to be detected"}
+            continue
+        subprocess.run(["git", "-C", wt, "checkout", "-q", "--", "."], check=True)
+        if subprocess.run(["git", "-C", wt, "apply", ROOT + "/seeded/%s/patch.diff" % n]).returncode:
+            out[n] = {"property": prop, "exit": None, "violations": 0, "error": "patch does not apply"}
+            print("%-50s %s PATCH DOES NOT APPLY" % (n, prop), flush=True)
+            continue
+        c = subprocess.run(["./check", prop, "--tier", "quick"], cwd=ROOT, env=env, capture_output=True, text=True, timeout=1800)
         viol = sum(1 for l in c.stdout.split("\n") if l.startswith("VIOLATION"))
         out[n] = {"property": prop, "exit": c.returncode, "violations": viol}
         print("%-50s %s exit=%d violations=%d" % (n, prop, c.returncode, viol), flush=True)
-    finally:
-        subprocess.run(["git", "-C", "/repo", "checkout", "--", "."], check=True)
-json.dump(out, open("/verif/seeded/RESULTS.json", "w"), indent=1)
+        json.dump(out, open(OUT, "w"), indent=1)
+finally:
+    subprocess.run(["git", "-C", "/repo", "worktree", "remove", "--force", wt], capture_output=True)
+json.dump(out, open(OUT, "w"), indent=1)
 missed = [n for n, r in out.items() if r["exit"] != 1 and "note" not in r]
 print("missed by the owning check:", missed)
